@@ -4,6 +4,7 @@ import Driver.Adapter
 import Driver.Closed
 import Driver.Stream
 import Driver.OpCache
+import Driver.Shard
 import Netpoll.Gen.Consts
 def main (args : List String) : IO UInt32 := do
   match args with
@@ -13,4 +14,6 @@ def main (args : List String) : IO UInt32 := do
   | ["stream"] => Driver.Stream.main; return 0
   | ["closed"] => Driver.Closed.main; return 0
   | ["adapter"] => Driver.Adapter.main Netpoll.Gen.c_block4k; return 0
-  | _ => IO.eprintln "usage: npdriver lb | lbspec <ops> <impl> | adapter"; return 2
+  | ["shard", trace] => Driver.Shard.main trace false
+  | ["shard", trace, "nomodel"] => Driver.Shard.main trace true
+  | _ => IO.eprintln "usage: npdriver lb | lbspec <ops> <impl> | shard <trace> [nomodel]"; return 2
